@@ -11,17 +11,24 @@ renderer model (`Model/Render*.lean`):
   reposition_body_eq_model     `if reposition { … }`                       = `pre` / the pen's link reset
   hyperlink_body_eq_model      `if cursor.Hyperlink != next.Hyperlink …`   = the OSC 8 part of `penDelta` with `lpField` (F112b repair)
   glyph_body_eq_model          width resolution + the write `switch`       = `glyphTok`
+  written_cell_body_eq_model   the WHOLE written-cell path (dirty … switch)  = tokens / pen / flags / dirty / last of the written-cell branch
+  unchanged_body_eq_model      `if next == last && !refresh && col >= dirty { … continue }` = the unchanged branch
+  render_written_branch_eq_interp, render_sixel_branch_eq_interp, render_unchanged_branch_eq_interp
+                               each of the three branches of `renderCellsS` at a non-skipped cell continues with the
+                               state the interpreted statements compute
   (the writer: `Props.C01Facts.flush_from_source`; attribute tables / delta order: `attrToks_from_source`, `penDelta_order`)
 
 A source change in one of these blocks changes the regenerated text, hence the atoms the interpreter
 reads (`Atom.unknown` for a text it does not know) and breaks exactly the theorem of that block.  The
-frame around the blocks — `for col`, `continue`, `col += skip` and the two nulling loops — stays pinned
-(`Props.C01Facts.facts_render`), as do the colour `switch`es.
+frame around the blocks — `for col`, the bodies of the two nulling loops (`for i := 1; i < skip+1; i += 1`, the
+model's skip branch) and the final `col += skip` — stays pinned (`Props.C01Facts.facts_render`), as do the inner lines of the colour / attribute / underline
+blocks (executed as wholes; tables and order interpreted by `attrToks_from_source` / `penDelta_order`).
 -/
 import VaxisModel.Model.RenderInterp
 import VaxisModel.Model.RenderSixel
 import VaxisModel.Gen.RenderFacts
 import VaxisModel.Lemmas.RenderDisplay
+import VaxisModel.Lemmas.RenderImages
 
 namespace VaxisModel.Props.C01Body
 open VaxisModel.Model.Render VaxisModel.Model.RenderInterp
@@ -248,5 +255,187 @@ theorem glyph_body_eq_model (cw : String → Nat) (caps : Caps) (n : Cell) (o : 
     · cases hew : caps.explicitWidth <;>
         simp [exec, execArms, evalG, evalS, List.dropWhile, List.takeWhile, hw, h1, hew, glyphTok, glyphTokW, resolvedW]
     · simp [exec, execArms, evalG, evalS, List.dropWhile, List.takeWhile, hw, h1, glyphTok, glyphTokW, resolvedW]
+
+/-! ### the whole written-cell path -/
+
+/-- From the `dirty` extension to the write `switch`: everything `render()` does for a cell it writes,
+    between the early exits (image cell, clip, unchanged) and the skipping of the covered cells. -/
+def writtenPath : List Line :=
+  (G.dropWhile (fun l => !(l.1 == 2 && l.2.1 == "if" && l.2.2 == "end:=col+vx.advance(vx.screenLast.buf[row][col])+1;end>dirty"))).takeWhile
+    (fun l => !(l.1 == 2 && l.2.1 == "assign" && l.2.2 == "skip:=vx.advance(next)"))
+
+theorem written_prog : prune (prog writtenPath) =
+    [(2, .if_, .endLastDirty), (3, .stmt, .dirtyEnd), (2, .stmt, .lastNext),
+     (2, .if_, .reposition), (3, .if_, .cursorLinked), (4, .stmt, .wrLinkClose), (4, .stmt, .cursorLinkClear),
+     (4, .stmt, .cursorParamsClear), (3, .stmt, .wrCup), (3, .stmt, .repFalse),
+     (2, .stmt, .fgDelta), (2, .stmt, .bgDelta), (2, .stmt, .ulDelta), (2, .stmt, .attrDelta), (2, .stmt, .ulStyleDelta),
+     (2, .if_, .linkChanged), (3, .stmt, .linkAssign), (3, .stmt, .paramsAssign), (3, .if_, .linkEmpty), (4, .stmt, .paramsClear),
+     (3, .if_, .semiIndex), (4, .stmt, .paramsCut), (3, .stmt, .wrLink),
+     (2, .stmt, .cursorNextStyle),
+     (2, .if_, .nextWidth0), (3, .stmt, .setNextWidth),
+     (2, .switch_, .none_), (3, .case_, .nextWidth0), (4, .stmt, .wrSpace), (3, .case_, .nextWide), (4, .stmt, .wrExplicit),
+     (3, .default_, .none_), (4, .stmt, .wrGrapheme)] := by
+  decide +kernel
+
+theorem lpField_cut' (s : String) :
+    lpField s = (if (semiIndexL s.toList).isSome = true then takeBytes ((semiIndexL s.toList).getD 0) s else s) := by
+  rw [lpField_cut]
+  cases semiIndexL s.toList with
+  | none => simp
+  | some i => simp
+
+theorem ite_append_right {α : Type} (c : Prop) [Decidable c] (X a b : List α) :
+    (if c then X ++ a else X ++ b) = X ++ (if c then a else b) := by split <;> rfl
+theorem ite_singleton {α : Type} (c : Prop) [Decidable c] (a b : α) :
+    (if c then [a] else [b]) = [if c then a else b] := by split <;> rfl
+theorem ite_cons_right {α : Type} (c : Prop) [Decidable c] (x : α) (a b : List α) :
+    (if c then x :: a else x :: b) = x :: (if c then a else b) := by split <;> rfl
+
+/-- The environment in which the written-cell path runs: the loop state `st`, the (clipped) cell `m`,
+    the cell `l` the previous frame recorded here. -/
+def writtenEnv (st : RSt) (m l : Cell) (row col dirty : Nat) : Env :=
+  { cursor := st.pen, reposition := st.reposition, next := m, last := l, row := row, col := col, dirty := dirty, out := st.out }
+
+set_option maxHeartbeats 400000 in
+theorem written_state (cw : String → Nat) (caps : Caps) (st : RSt) (m l : Cell) (row col dirty : Nat) :
+    let e := runP cw caps writtenPath (writtenEnv st m l row col dirty)
+    e.unknown = false ∧ e.reposition = false ∧ e.lastSet = some m ∧
+    e.dirty = (if col + advance cw l + 1 > dirty then col + advance cw l + 1 else dirty) := by
+  have hl : writtenPath.length = 125 := by decide +kernel
+  intro e
+  simp only [e, writtenEnv]
+  unfold runP
+  rw [written_prog, hl]
+  simp [exec, execArms, evalG, evalS, List.dropWhile, List.takeWhile, apply_ite Env.cont, apply_ite Env.ret, apply_ite Env.unknown,
+    apply_ite Env.reposition, apply_ite Env.lastSet, apply_ite Env.dirty, apply_ite Env.out, apply_ite Env.cursor, apply_ite Env.next,
+    apply_ite Env.link, apply_ite Env.linkPs, apply_ite Env.idx, apply_ite Env.endv, apply_ite Env.col, apply_ite Env.row]
+
+set_option maxHeartbeats 400000 in
+theorem written_out (cw : String → Nat) (caps : Caps) (st : RSt) (m l : Cell) (row col dirty : Nat) :
+    let e := runP cw caps writtenPath (writtenEnv st m l row col dirty)
+    e.cursor = m.style ∧ e.out = st.out ++ VaxisModel.Lemmas.RenderDisplay.cellToks cw caps st row col m := by
+  have hl : writtenPath.length = 125 := by decide +kernel
+  intro e
+  simp only [e, writtenEnv]
+  unfold runP
+  rw [written_prog, hl]
+  cases hrep : st.reposition <;> by_cases hk : st.pen.link = "" <;> by_cases hw : m.w = 0
+  all_goals
+    simp [exec, execArms, evalG, evalS, List.dropWhile, List.takeWhile, apply_ite Env.cont, apply_ite Env.ret, apply_ite Env.unknown,
+      apply_ite Env.reposition, apply_ite Env.lastSet, apply_ite Env.dirty, apply_ite Env.out, apply_ite Env.cursor, apply_ite Env.next,
+      apply_ite Env.link, apply_ite Env.linkPs, apply_ite Env.idx, apply_ite Env.endv, apply_ite Env.col, apply_ite Env.row,
+      hrep, hk, hw, VaxisModel.Lemmas.RenderDisplay.cellToks, penDelta, glyphTok, glyphTokW, resolvedW, lpField_cut', ite_append_right,
+      ite_singleton, ite_cons_right]
+  all_goals (split <;> simp)
+
+/-- **written_cell_body_eq_model**: running everything `render()` does for a written cell — `dirty`
+    extension, copy into `last`, reposition (OSC 8 close + CUP), the six style deltas (colours, attributes
+    and underline as whole blocks), the hyperlink with its parameter cut, `cursor = next.Style`, width
+    resolution and the write `switch` — from the text extracted on this run gives exactly the tokens,
+    the tracked pen, the flags, `dirty` and the `last` cell of the model's written-cell branch. -/
+theorem written_cell_body_eq_model (cw : String → Nat) (caps : Caps) (st : RSt) (m l : Cell) (row col dirty : Nat) :
+    let e := runP cw caps writtenPath (writtenEnv st m l row col dirty)
+    e.unknown = false ∧ e.lastSet = some m ∧
+    e.dirty = (if col + advance cw l + 1 > dirty then col + advance cw l + 1 else dirty) ∧
+    ({ reposition := e.reposition, pen := e.cursor, out := e.out } : RSt) =
+      { reposition := false, pen := m.style, out := st.out ++ VaxisModel.Lemmas.RenderDisplay.cellToks cw caps st row col m } := by
+  intro e
+  obtain ⟨h1, h2, h3, h4⟩ := written_state cw caps st m l row col dirty
+  obtain ⟨h5, h6⟩ := written_out cw caps st m l row col dirty
+  exact ⟨h1, h3, h4, by simp only [e]; rw [h2, h5, h6]⟩
+
+/-- **The written-cell branch of the model's loop is the interpreted source**: for a cell that is neither
+    an image cell nor unchanged, `renderCellsS` continues with exactly the state the extracted statements
+    compute (`e`), the cell the clip block computes, and skips `advance` cells. -/
+theorem render_written_branch_eq_interp (cw : String → Nat) (caps : Caps) (refresh : Bool) (row col : Nat) (track : Bool)
+    (dirty : Nat) (n0 l : Cell) (ns ls : List Cell) (st : RSt) (h : n0.sixel = false)
+    (hc : ¬ (clipCell cw (ns.length + 1) n0 = l ∧ ¬ refresh ∧ col ≥ dirty)) :
+    let m := (run cw caps clipBlock { next := n0, col := col, len := col + (ns.length + 1) }).next
+    let e := runP cw caps writtenPath (writtenEnv st m l row col dirty)
+    renderCellsS cw caps refresh row col 0 track dirty (n0 :: ns) (l :: ls) st =
+      (m :: (renderCellsS cw caps refresh row (col + 1) (advance cw m) true e.dirty ns ls
+              { reposition := e.reposition, pen := e.cursor, out := e.out }).1,
+       (renderCellsS cw caps refresh row (col + 1) (advance cw m) true e.dirty ns ls
+              { reposition := e.reposition, pen := e.cursor, out := e.out }).2) := by
+  intro m e
+  have hm : m = clipCell cw (ns.length + 1) n0 := (clip_body_eq_model cw caps n0 col (ns.length + 1)).1
+  obtain ⟨_, _, hd, hst⟩ := written_cell_body_eq_model cw caps st m l row col dirty
+  simp only [e]
+  rw [hd, hst, hm]
+  exact VaxisModel.Lemmas.RenderImages.renderCellsS_write_eq cw caps refresh row col track dirty n0 l ns ls st h hc
+
+/-- **The image-cell branch of the model's loop is the interpreted source.** -/
+theorem render_sixel_branch_eq_interp (cw : String → Nat) (caps : Caps) (refresh : Bool) (row col : Nat) (track : Bool)
+    (dirty : Nat) (n l : Cell) (ns ls : List Cell) (st : RSt) (h : n.sixel = true) :
+    let e := run cw caps sixelBlock { next := n, last := l, col := col, dirty := dirty, reposition := st.reposition, out := st.out }
+    e.cont = true ∧
+    renderCellsS cw caps refresh row col 0 track dirty (n :: ns) (l :: ls) st =
+      (e.lastSet.getD l :: (renderCellsS cw caps refresh row (col + 1) 0 false e.dirty ns ls
+              { st with reposition := e.reposition }).1,
+       (renderCellsS cw caps refresh row (col + 1) 0 false e.dirty ns ls { st with reposition := e.reposition }).2) := by
+  intro e
+  obtain ⟨_, _, h1, _⟩ := sixel_body_eq_model cw caps n l col dirty st.reposition st.out
+  obtain ⟨c1, c2, c3, c4⟩ := h1 h
+  refine ⟨c1, ?_⟩
+  simp only [e]
+  rw [c2, c3, c4]
+  exact VaxisModel.Lemmas.RenderImages.renderCellsS_sixel_eq cw caps refresh row col track dirty n l ns ls st h
+
+
+/-! ### the unchanged cell -/
+
+def unchangedBlock : List Line := blockAt G 2 "if" "next==vx.screenLast.buf[row][col]&&!vx.refresh&&col>=dirty"
+
+theorem unchanged_prog : prune (prog unchangedBlock) =
+    [(2, .if_, .unchanged), (3, .stmt, .repTrue), (3, .stmt, .skipAdvance), (3, .stmt, .nullLoop), (3, .stmt, .colSkip),
+     (3, .stmt, .continue_)] := by
+  decide +kernel
+
+/-- **unchanged_body_eq_model**: a cell equal to what the previous frame recorded — outside a refresh and
+    the `dirty` range — is not written: `reposition` is set, the `advance(next)` cells it covers are handed
+    to the nulling loop and jumped over, `continue`.  Otherwise the block does nothing. -/
+theorem unchanged_body_eq_model (cw : String → Nat) (caps : Caps) (m l : Cell) (col dirty : Nat) (refresh rep : Bool) (o : List Tok) :
+    let e := runP cw caps unchangedBlock { next := m, last := l, col := col, dirty := dirty, refresh := refresh, reposition := rep, out := o }
+    e.unknown = false ∧ e.out = o ∧ e.dirty = dirty ∧
+    ((m = l ∧ ¬ refresh ∧ col ≥ dirty) → e.cont = true ∧ e.reposition = true ∧ e.skipv = advance cw m ∧ e.nulled = advance cw m ∧
+      e.col = col + advance cw m) ∧
+    (¬ (m = l ∧ ¬ refresh ∧ col ≥ dirty) → e.cont = false ∧ e.reposition = rep ∧ e.col = col) := by
+  have hl : unchangedBlock.length = 9 := by decide +kernel
+  intro e
+  simp only [e]
+  unfold runP
+  rw [unchanged_prog, hl]
+  by_cases hc : m = l ∧ ¬ refresh ∧ col ≥ dirty
+  · obtain ⟨h1, h2, h3⟩ := hc
+    have h2' : refresh = false := by simpa using h2
+    simp [exec, evalG, evalS, List.dropWhile, List.takeWhile, h1, h2', h3]
+  · have hg : (decide (m = l) && !refresh && decide (col ≥ dirty)) = false := by
+      by_cases a : m = l <;> cases hr : refresh <;> by_cases b : col ≥ dirty <;> simp_all
+    simp [exec, evalG, evalS, List.dropWhile, List.takeWhile, hg, hc]
+    intro a b
+    by_cases c : col ≥ dirty
+    · exact absurd ⟨a, by simpa using b, c⟩ hc
+    · omega
+
+/-- **The unchanged branch of the model's loop is the interpreted source.** -/
+theorem render_unchanged_branch_eq_interp (cw : String → Nat) (caps : Caps) (refresh : Bool) (row col : Nat) (track : Bool)
+    (dirty : Nat) (n0 l : Cell) (ns ls : List Cell) (st : RSt) (h : n0.sixel = false)
+    (hc : clipCell cw (ns.length + 1) n0 = l ∧ ¬ refresh ∧ col ≥ dirty) :
+    let m := (run cw caps clipBlock { next := n0, col := col, len := col + (ns.length + 1) }).next
+    let e := runP cw caps unchangedBlock
+      ({ next := m, last := l, col := col, dirty := dirty, refresh := refresh, reposition := st.reposition, out := st.out } : Env)
+    e.cont = true ∧
+    renderCellsS cw caps refresh row col 0 track dirty (n0 :: ns) (l :: ls) st =
+      (l :: (renderCellsS cw caps refresh row (col + 1) e.skipv false e.dirty ns ls { st with reposition := e.reposition }).1,
+       (renderCellsS cw caps refresh row (col + 1) e.skipv false e.dirty ns ls { st with reposition := e.reposition }).2) := by
+  intro m e
+  have hm : m = clipCell cw (ns.length + 1) n0 := (clip_body_eq_model cw caps n0 col (ns.length + 1)).1
+  obtain ⟨_, _, hd, h1, _⟩ := unchanged_body_eq_model cw caps m l col dirty refresh st.reposition st.out
+  obtain ⟨c1, c2, c3, _, _⟩ := h1 (by rw [hm]; exact hc)
+  refine ⟨c1, ?_⟩
+  simp only [e]
+  rw [hd, c2, c3, hm]
+  exact VaxisModel.Lemmas.RenderImages.renderCellsS_equal_eq cw caps refresh row col track dirty n0 l ns ls st h hc
+
 
 end VaxisModel.Props.C01Body
